@@ -32,6 +32,9 @@ pub struct SourceStats {
     pub finished: AtomicU64,
     pub filters_accepted: AtomicU64,
     pub rows_pruned: AtomicU64,
+    /// set by a scenario that has seen enough: continuing ("filler") inputs stop producing and stay
+    /// pending, so that what is already in flight can drain at whatever pace the schedule allows
+    pub pause_fillers: std::sync::atomic::AtomicBool,
 }
 
 #[derive(Debug, Clone)]
@@ -242,6 +245,10 @@ impl Stream for ScriptStream {
                     Poll::Pending => return Poll::Pending,
                     Poll::Ready(()) => self.sleeping = None,
                 }
+            }
+            if self.filler.is_some() && self.stats.pause_fillers.load(Ordering::Relaxed) {
+                // (no waker is kept: nothing will ever resume this input)
+                return Poll::Pending;
             }
             if let Some((base, stride, n, counter)) = self.filler {
                 // fresh rows with ever increasing keys: the input "continues"
